@@ -63,6 +63,10 @@ def main():
                         mol = qr.Molecule([0.0, om])
                         mol.set_dipole(0, 1, [1.0, 0.0, 0.0])
                         calc = qr.AbsSpectrumCalculator(ta, system=mol)
+                        if kappa % 2:
+                            # the rotating-wave frequency is specified again
+                            # on a calculator that was bootstrapped before
+                            calc.bootstrap(rwa=0.8 * rwa)
                         calc.bootstrap(rwa=rwa)
                         sp = calc.calculate(raw=True)
                         ax = numpy.array(sp.axis.data)
@@ -122,10 +126,16 @@ def main():
             ta, system=ag, **{k: v for k, v in calc_kw.items()
                               if k != "before"})
         with qr.energy_units("1/cm"):
+            if rebootstrap[0] % 2:
+                calc.bootstrap(rwa=11500.0)
+            rebootstrap[0] += 1
             calc.bootstrap(rwa=12000.0)
         sp = calc.calculate(raw=raw)
         with qr.energy_units("int"):
             return numpy.array(sp.axis.data), numpy.array(sp.data), calc_kw
+
+    # every second calculator is bootstrapped twice (rwa respecified)
+    rebootstrap = [0]
 
     def reference(ag, ta, ax, gam=None):
         """direct Fourier integral on the returned axis"""
